@@ -32,6 +32,13 @@ RULE = ('fault enumeration over inputs: well-formed files (spec-serialized '
         'read of a from_stream load; the stream must be closed. '
         'Non-trivial = input differs from its well-formed base; distinct = '
         'fingerprint of the input bytes.')
+RULE += (
+         ' Also: metadata nested to 29 depths from 20 to 20000 (lists, '
+         'dicts, mixed, bare arrays; main / change / file level) through '
+         'reader and object model, called from a shallow, a 300- and a '
+         '700-frame-deep stack. Process axes (DESIGN 2.8): 2 of 16 shards '
+         'run under python -O, 4 of 16 after a hostile warm-up of the '
+         'library.')
 FLOOR = {'quick': 20000, 'thorough': 500000}
 REQUIRED_REACH = ['reader.py:', 'dom/reader.py:']
 REQUIRED_COUNTERS = ['reader_outcome:parse_error', 'reader_outcome:completed',
